@@ -105,7 +105,14 @@ fn strategy(tier: Tier) -> BoxedStrategy<LayoutCase> {
 }
 
 fn check(c: &LayoutCase, obs: &mut Obs) -> Verdict {
-    let opts = c.base.run_opts();
+    let mut opts = c.base.run_opts();
+    // a third of the inputs with two or more Bank-of-Canada look-ups start from the rate cache an earlier run in the middle of the history
+    // would have left (both layouts from the same cache): the order in which the rows ask for rates must not matter either
+    if c.base.rows.len() % 3 == 1 {
+        let mut ds: Vec<time::Date> = c.base.rows.iter().filter(|r| (r.cur.trim().eq_ignore_ascii_case("USD") && r.rate.trim().is_empty()) || (r.ccur.trim().eq_ignore_ascii_case("USD") && r.crate_.trim().is_empty())).map(|r| r.td).collect();
+        ds.sort(); ds.dedup();
+        if ds.len() >= 2 { opts.stale_cache_until = Some(ds[ds.len() / 2]); obs.class("rate-cache-left-by-an-earlier-run"); }
+    }
     let base_files = c.base.files();
     let a = match run_render(&base_files, &opts, true, c.costs) { Ok(r) => r, Err(RunErr::Panic(p)) => return classify_panic(&p, &base_files[0].1), Err(RunErr::Run(e)) => return Verdict::Skip(format!("base-run-error:{}", e.split_whitespace().take(3).collect::<Vec<_>>().join("_"))), Err(RunErr::BadInit(e)) => return Verdict::Fail(e) };
     let all: String = c.files.iter().map(|(n, t)| format!("--- {n}\n{t}")).collect();
@@ -130,7 +137,7 @@ fn check(c: &LayoutCase, obs: &mut Obs) -> Verdict {
 }
 
 pub fn def() -> PropDef {
-    let mut d = PropDef::new("C07", "a generated input (ledger generator, one file, canonical columns) and a generated re-layout of the same rows: 1-5 files in order (file names mostly NOT in the text order of the order given: reversed numbering, broker-style names), per-file column permutation, header case/padding variants, 0-3 unrecognised columns (named, or with an empty / blank header cell) with junk cells (including cells starting with '#'), memos starting with '#', '=' or a quote, optional columns absent when empty, legacy 'date' header, padded cells, CRLF line ends, and a random row permutation constrained to keep the relative order of rows of one security settling on one date; in a third of the cases the trade dates of rows without a rate look-up are moved as well (only the trade-date column may change). Every cell of every security table, footer, aggregate table and (in half the cases) the total-costs tables must be identical in full precision; notes compared as multisets. Non-trivial = >= 2 files AND permuted columns AND at least one pair of same-security same-day rows. Distinct = distinct case content.");
+    let mut d = PropDef::new("C07", "a generated input (ledger generator, one file, canonical columns) and a generated re-layout of the same rows: 1-5 files in order (file names mostly NOT in the text order of the order given: reversed numbering, broker-style names), per-file column permutation, header case/padding variants, 0-3 unrecognised columns (named, or with an empty / blank header cell) with junk cells (including cells starting with '#'), memos starting with '#', '=' or a quote, optional columns absent when empty, legacy 'date' header, padded cells, CRLF line ends, and a random row permutation constrained to keep the relative order of rows of one security settling on one date; in a third of the cases the trade dates of rows without a rate look-up are moved as well (only the trade-date column may change). A third of the inputs with several rate look-ups start (in both layouts) from the rate cache an earlier run in the middle of the history would have left. Every cell of every security table, footer, aggregate table and (in half the cases) the total-costs tables must be identical in full precision; notes compared as multisets. Non-trivial = >= 2 files AND permuted columns AND at least one pair of same-security same-day rows. Distinct = distinct case content.");
     d.assumptions = vec!["the order of notes is C09's business and ignored here"];
     d.subs.push(Box::new(Sub::<LayoutCase> { name: "relayout", cases_quick: 50_000, cases_thorough: 800_000, strategy: Box::new(strategy), to_json: LayoutCase::to_json, from_json: LayoutCase::from_json, check }));
     d
